@@ -749,6 +749,11 @@ func c13Gen(rng *rand.Rand, tier string, w *bufio.Writer) {
 		"ap 81a17493010203 - rmat:745b2d315d:",                                 // t[-1]
 		"ap 81a17493010203 - rmat:745b2d345d:",                                 // t[-4] out of range
 		"ap 81a17493010203 - pre:745b5d:09 app:745b5d:0a rmval:74:02",          //
+		"ap 81a174919101 - rmval:74:9101",                                      // REMOVE_VAL of a container element parsed from the body
+		"ap 81a17492810a0b9101 - rmval:74:de00010a0b",                         // body with a non-string key: rejected
+		"ap 81a1749281a16101a161 - rmval:74:de0001a16101",                      // container value with a non-minimal header
+		"ap 81a17490 - app:745b5d:dc000101 rmval:74:9101",                      // spliced non-minimal array, removed by its canonical form
+		"ap 81a17490 - app:745b5d:9101 rmval:74:9101",
 		"ap 81a16d81a16101 - merge:6d:82a16102a16203",                          // MERGE overrides a, adds b
 		"ap 80 - set:612e622e63:01",                                            // auto-create a.b.c
 		"ap 80 - app:612e625b5d:01",                                            // auto-create a.b[]
